@@ -285,13 +285,15 @@ Definition skip_strict_port (mode_wl : mode) (nsc rootc : option pa) : bool :=
    ((is_some nsc && opt_strict nsc) ||
     ((negb (is_some nsc) || opt_unset_or_nil nsc) && is_some rootc && opt_strict rootc))).
 
-(* the PERMISSIVE/DISABLE-port skip conditions *)
+(* the PERMISSIVE/DISABLE-port skip conditions; since /repo 45faab8 a namespace policy whose mode is UNSET
+   counts like no namespace policy ("nsUnset := nsCfg == nil || isMtlsModeUnset(nsCfg.Spec.Mtls)") *)
 Definition skip_nonstrict_port (mode_wl : mode) (nsc rootc : option pa) : bool :=
+  let ns_unset := opt_unset_or_nil nsc in
   (is_permissive mode_wl || is_disable mode_wl) ||
   (is_unset mode_wl &&
-   ((is_some nsc && negb (opt_strict nsc)) ||
-    (negb (is_some nsc) && is_some rootc && negb (opt_strict rootc)) ||
-    (negb (is_some nsc) && negb (is_some rootc)))).
+   ((negb ns_unset && negb (opt_strict nsc)) ||
+    (ns_unset && is_some rootc && negb (opt_strict rootc)) ||
+    (ns_unset && negb (is_some rootc)))).
 
 Record conv_state := { cv_rules : list arule; cv_groups : list agroup; cv_found : bool }.
 
@@ -373,7 +375,8 @@ Definition keys_of_sel (s : sel3) : akeys :=
           else {| k_static := e3; k_policy := None |}
       | MUnset =>
           if e3 then
-            if has_port_mode is_permissive w
+            (* PERMISSIVE or DISABLE exceptions (DISABLE since /repo 24c83bf) *)
+            if has_port_mode (fun x => is_permissive x || is_disable x) w
             then {| k_static := false; k_policy := key |}
             else {| k_static := e3; k_policy := None |}
           else
